@@ -518,3 +518,54 @@ fn enc_seek_total() {
     }));
     report(r);
 }
+
+/// real writer fed in the solver's pieces, decoded by an INDEPENDENT AES-256-GCM (aes-gcm crate)
+/// chunk by chunk with nonce = archive nonce || BE32(chunk index)
+#[test]
+fn enc_writer() {
+    use aes_gcm::{aead::Aead, Aes256Gcm, KeyInit as _};
+    let off = v_u64("off", 0);
+    let blen = v_u64("blen", 1);
+    let ctr = v_u64("ctr", 0) % 3;
+    let r = catch_unwind(AssertUnwindSafe(|| -> Option<String> {
+        let first = ctr * ch() + off;
+        let total = first + blen;
+        let plain = plain_of(total);
+        let cfg = EncryptionConfig { ecc_keys: Vec::new(), key: KEY, nonce: NONCE };
+        let mut w = Box::new(EncryptionLayerWriter::new(Box::new(RawLayerWriter::new(Vec::new())), &cfg).unwrap());
+        w.write_all(&plain[..first as usize]).unwrap();
+        let mut done = first as usize;
+        while done < total as usize {
+            let n = w.write(&plain[done..]).unwrap();
+            if n == 0 {
+                return Some("write() accepted nothing".to_string());
+            }
+            done += n;
+        }
+        w.finalize().unwrap();
+        let out = w.into_raw();
+        let chunks = if total == 0 { 1 } else { (total + ch() - 1) / ch() };
+        if out.len() as u64 != total + 16 * chunks {
+            return Some(format!("{} bytes emitted for {total} plaintext bytes: format says one 16-byte tag per {}-byte chunk ({} expected)", out.len(), ch(), total + 16 * chunks));
+        }
+        let aead = Aes256Gcm::new_from_slice(&KEY).unwrap();
+        let mut pos = 0usize;
+        let mut got = Vec::new();
+        for i in 0..chunks {
+            let len = (total - i * ch()).min(ch()) as usize + 16;
+            let mut nonce = [0u8; 12];
+            nonce[..8].copy_from_slice(&NONCE);
+            nonce[8..].copy_from_slice(&(i as u32).to_be_bytes());
+            match aead.decrypt((&nonce).into(), &out[pos..pos + len]) {
+                Ok(p) => got.extend_from_slice(&p),
+                Err(_) => return Some(format!("chunk {i} of the written stream does not authenticate as AES-256-GCM under nonce = archive nonce || BE32({i})")),
+            }
+            pos += len;
+        }
+        if got != plain {
+            return Some("independent decryption of the written stream differs from the plaintext".to_string());
+        }
+        None
+    }));
+    report(r);
+}
